@@ -20,6 +20,7 @@ import (
 	"sort"
 	"strconv"
 	"strings"
+	"sync"
 	"testing"
 	"time"
 
@@ -65,11 +66,33 @@ type Script struct {
 	Ops  []kshist.Op `json:"ops"`
 }
 
-// Case is one concurrent history: initial state, scripts, schedule.
+// LifeEv is one event in the life of the key store handles before the threads start: the threads'
+// handles need not be opened together, and short-lived handles (a maintenance run: open the key
+// store, do one thing, close it) come and go between them.
+type LifeEv struct {
+	Ev string     `json:"ev"`           // open | visit
+	T  int        `json:"t,omitempty"`  // open: the thread whose handle is opened now
+	Op *kshist.Op `json:"op,omitempty"` // visit: what the short-lived handle does before it is closed
+}
+
+const (
+	evOpen  = "open"
+	evVisit = "visit"
+)
+
+func (e LifeEv) String() string {
+	if e.Ev == evVisit && e.Op != nil {
+		return "visit:" + e.Op.String()
+	}
+	return fmt.Sprintf("%s:t%d", e.Ev, e.T)
+}
+
+// Case is one concurrent history: initial state, handle lifetimes, scripts, schedule.
 type Case struct {
-	Backend  string      `json:"backend"` // mem | dir
-	Setup    []kshist.Op `json:"setup"`   // executed single-threaded before the threads start
-	Threads  []Script    `json:"threads"` // writers first
+	Backend  string      `json:"backend"`        // mem | dir
+	Setup    []kshist.Op `json:"setup"`          // executed single-threaded before the threads start
+	Life     []LifeEv    `json:"life,omitempty"` // executed single-threaded after the setup; handles of threads not named are opened after it in index order
+	Threads  []Script    `json:"threads"`        // writers first; the operation "reopen" closes the thread's handle and opens a new one
 	Schedule []Seg       `json:"schedule"`
 }
 
@@ -101,7 +124,7 @@ func ringPath(k kshist.K) string {
 
 func opRing(op kshist.Op) string {
 	switch op.Kind {
-	case kshist.OpList, opClaim:
+	case kshist.OpList, opClaim, kshist.OpReopen:
 		return ""
 	}
 	return ringPath(kshist.K{Kind: op.Key, ID: op.ID})
@@ -160,7 +183,7 @@ func mkOp(t *rapid.T, kind string, k kshist.K, tid int) kshist.Op {
 	switch kind {
 	case kshist.OpDestroyRotated:
 		op.Index = rapid.IntRange(2, 3).Draw(t, "index") // the index of a rotated-listing row: 2 = newest rotated key
-	case kshist.OpList:
+	case kshist.OpList, kshist.OpReopen:
 		op.Key, op.ID = "", ""
 	case opClaim:
 		op.Key, op.ID = "", rapid.SampledFrom([]string{"s1", "s2"}).Draw(t, "slot")
@@ -173,8 +196,21 @@ var writerOps = []wk{{kshist.OpGen, 34}, {opGenRetry, 8}, {kshist.OpDestroyCurre
 var readerOps = []wk{{kshist.OpReadCurrent, 40}, {kshist.OpReadAll, 40}, {opReadPublic, 8}, {kshist.OpList, 12}}
 var segLens = []wk{{"1", 4}, {"2", 4}, {"3", 3}, {"4", 2}, {"5", 2}, {"6", 1}, {"8", 1}, {"12", 1}, {"99", 2}}
 
-func genCase(t *rapid.T) Case {
-	c := Case{Backend: pickW(t, "backend", []wk{{"mem", 88}, {"dir", 12}})}
+var visitOps = []wk{{kshist.OpGen, 50}, {kshist.OpReadCurrent, 20}, {kshist.OpReadAll, 10}, {kshist.OpList, 10}, {kshist.OpDestroyCurrent, 10}}
+
+// genOpt shifts the weights of genCase.
+type genOpt struct {
+	dir    int // % of cases on the directory back end
+	life   int // % of cases in which the handles have a history (Life)
+	reopen int // % of threads that replace their handle once
+}
+
+var schedOpt = genOpt{dir: 12, life: 40, reopen: 12}
+
+func genCase(t *rapid.T) Case { return genCaseOpt(t, schedOpt) }
+
+func genCaseOpt(t *rapid.T, o genOpt) Case {
+	c := Case{Backend: pickW(t, "backend", []wk{{"mem", 100 - o.dir}, {"dir", o.dir}})}
 	focus := drawK(t, "focus")
 	other := drawK(t, "other")
 	pickK := func() kshist.K {
@@ -217,7 +253,29 @@ func genCase(t *rapid.T) Case {
 		for j := 0; j < n; j++ {
 			s.Ops = append(s.Ops, mkOp(t, pickW(t, "op", ops), pickK(), i))
 		}
+		// handle lifetime inside the run: the thread closes its handle and goes on with a new one
+		// (before its first operation: the handle is opened while the others are at work)
+		if pickW(t, "reopen", []wk{{"", 100 - o.reopen}, {"yes", o.reopen}}) != "" {
+			at := rapid.IntRange(0, len(s.Ops)).Draw(t, "reopen.at")
+			ops := append([]kshist.Op{}, s.Ops[:at]...)
+			ops = append(ops, kshist.Op{Kind: kshist.OpReopen})
+			s.Ops = append(ops, s.Ops[at:]...)
+		}
 		c.Threads = append(c.Threads, s)
+	}
+	// handle lifetimes before the run: the order in which the threads' handles are opened, with 1-2
+	// short-lived handles (open, one operation, close) somewhere in between
+	if pickW(t, "life", []wk{{"", 100 - o.life}, {"yes", o.life}}) != "" {
+		for _, th := range rapid.Permutation(seqInts(nw+nr)).Draw(t, "life.order") {
+			c.Life = append(c.Life, LifeEv{Ev: evOpen, T: th})
+		}
+		for i, n := 0, rapid.IntRange(1, 2).Draw(t, "life.visits"); i < n; i++ {
+			op := mkOp(t, pickW(t, "life.op", visitOps), pickK(), -1)
+			at := rapid.IntRange(0, len(c.Life)).Draw(t, "life.at")
+			life := append([]LifeEv{}, c.Life[:at]...)
+			life = append(life, LifeEv{Ev: evVisit, Op: &op})
+			c.Life = append(life, c.Life[at:]...)
+		}
 	}
 	// consecutive segments name different threads, so every segment is a wish to switch
 	prev := -1
@@ -231,6 +289,14 @@ func genCase(t *rapid.T) Case {
 		c.Schedule = append(c.Schedule, Seg{T: th, N: l})
 	}
 	return c
+}
+
+func seqInts(n int) []int {
+	out := make([]int, n)
+	for i := range out {
+		out[i] = i
+	}
+	return out
 }
 
 // ---- execution ----------------------------------------------------------------------------------
@@ -265,7 +331,10 @@ type Run struct {
 	FinalList []string             // back-end paths after the run
 	Discard   string               // non-empty: inconclusive run (watchdog), not a verdict
 	Classes   []string
-	Inter     bool // the non-trivial rule: two writers' back-end calls interleave on the same ring
+	Inter     bool         // the non-trivial rule: two writers' back-end calls interleave on the same ring
+	Handles   []HandleInfo // the handle each thread works through (at the end of the run)
+	Visits    int          // short-lived handles before the threads started
+	Across    bool         // a handle waited for the real store lock held through a handle from before / after some other handle's close
 	thrVs     []hx.Vs
 }
 
@@ -428,6 +497,33 @@ func claim(v *view, slot string, op int) (err error) {
 
 var watchdog = 20 * time.Second
 
+// blockWait is how long a probe of the real store lock waits before it takes the lock call for
+// blocked. The clock decides only in this direction: a call that returns although the lock is held
+// is a violation whenever it returns; one that is slower than this on a loaded machine is taken for
+// blocked (a missed observation, never an alarm).
+var blockWait = 25 * time.Millisecond
+
+// HandleInfo tells which handle a thread works through.
+type HandleInfo struct {
+	Gen int // 0 = the thread's first handle, +1 for every reopen
+	Era int // number of key store handles on this storage that had been closed (since the setup) when this one was opened
+}
+
+func (h HandleInfo) String() string {
+	return fmt.Sprintf("handle #%d of the thread, opened after %d other handle(s) on this storage had been closed", h.Gen+1, h.Era)
+}
+
+// opsOf names the operations the threads are executing.
+func opsOf(c Case, s *Sched, tids []int) []string {
+	var out []string
+	for _, t := range tids {
+		if j := s.thr[t].op; t < len(c.Threads) && j < len(c.Threads[t].Ops) {
+			out = append(out, fmt.Sprintf("t%d:%s", t, c.Threads[t].Ops[j]))
+		}
+	}
+	return out
+}
+
 // Execute runs the case once. It never blocks for longer than the watchdog per step.
 func Execute(c Case) *Run {
 	fix.Quiet()
@@ -520,43 +616,211 @@ func Execute(c Case) *Run {
 		return run
 	}
 	_, obs := fix.V2OnBackend(noLock{obsRaw})
+	s := newSched(n, c.Schedule, watchdog)
+	run.Sched = s
+	views := make([]*view, n)
+	fxs := make([]kshist.Fixture, n)
+	bodies := make([]func(*view), n)
+	run.Res = make([][]OpRes, n)
+	run.thrVs = make([]hx.Vs, n)
+	run.Handles = make([]HandleInfo, n)
+	// handle lifetimes: closes counts the key store handles on this storage that have been closed
+	// since the setup; every handle remembers the count at the time it was opened
+	var lifeMu sync.Mutex
+	closes := 0
+	forgetRaw := func(b backendapi.Backend) { // b has been closed: it is not the harness' to close any more
+		for k := range opened {
+			if opened[k] == b {
+				opened = append(opened[:k], opened[k+1:]...)
+				break
+			}
+		}
+	}
+	openThread := func(i int) error {
+		if views[i] != nil {
+			return nil
+		}
+		raw, err := openRaw()
+		if err != nil {
+			return err
+		}
+		views[i] = &view{s: s, tid: i, real: raw}
+		vi := views[i]
+		fx, err := kshist.NewV2On(fmt.Sprintf("v2/%s/t%d", c.Backend, i), func() (backendapi.Backend, error) { return vi, nil })
+		if err != nil {
+			return err
+		}
+		fxs[i] = fx
+		run.Handles[i] = HandleInfo{Era: closes}
+		return nil
+	}
+	for _, ev := range c.Life {
+		switch {
+		case ev.Ev == evOpen && ev.T >= 0 && ev.T < n:
+			if err := openThread(ev.T); err != nil {
+				run.Discard = "cannot open a thread's handle: " + err.Error()
+				return run
+			}
+		case ev.Ev == evVisit && ev.Op != nil:
+			raw, err := openRaw()
+			if err != nil {
+				run.Discard = "cannot open a short-lived handle: " + err.Error()
+				return run
+			}
+			fxv, err := kshist.NewV2On("visit", func() (backendapi.Backend, error) { return raw, nil })
+			if err != nil {
+				run.Discard = "cannot open a short-lived handle: " + err.Error()
+				return run
+			}
+			op := *ev.Op
+			hx.Guard(&setupVs, "visit", func() {
+				switch op.Kind {
+				case kshist.OpGen:
+					fxv.Generate(op.Key, op.ID)
+				case kshist.OpDestroyCurrent:
+					fxv.DestroyCurrent(op.Key, op.ID)
+				case kshist.OpReadCurrent:
+					fxv.Current(op.Key, op.ID)
+				case kshist.OpReadAll:
+					fxv.All(op.Key, op.ID)
+				case kshist.OpList:
+					fxv.ListKeys()
+				}
+			})
+			fxv.Close() // closes its back end too: its own DirectoryBackend, or a no-op for the in-memory one
+			forgetRaw(raw)
+			closes++
+			run.Visits++
+			if len(setupVs) > 0 {
+				run.Discard = "a short-lived handle panicked single-threaded (not this property's subject): " + setupVs[0].Msg
+				return run
+			}
+		}
+	}
+	for i := range c.Threads {
+		if err := openThread(i); err != nil {
+			run.Discard = "cannot open a thread's handle: " + err.Error()
+			return run
+		}
+	}
+	// a thread replaces its handle (on its own goroutine, while it is the running thread)
+	reopen := func(i int) error {
+		lifeMu.Lock()
+		defer lifeMu.Unlock()
+		s.forget(i)
+		if c.Backend == "dir" {
+			views[i].real.Close()
+			forgetRaw(views[i].real)
+			raw, err := openRaw()
+			if err != nil {
+				return err
+			}
+			views[i].real = raw
+		}
+		closes++
+		run.Handles[i] = HandleInfo{Gen: run.Handles[i].Gen + 1, Era: closes}
+		return fxs[i].Reopen()
+	}
+	// real-lock probes (directory back end: every handle has its own lock file descriptor)
+	probing := map[int]chan struct{}{}
+	waitProbes := func(d time.Duration) bool {
+		deadline := time.NewTimer(d)
+		defer deadline.Stop()
+		for _, ch := range probing {
+			select {
+			case <-ch:
+			case <-deadline.C:
+				return false
+			}
+		}
+		return true
+	}
+	if c.Backend == "dir" {
+		defer func() {
+			if !waitProbes(50 * time.Millisecond) {
+				// a lock was leaked: closing the holders' descriptors releases it
+				for _, b := range opened {
+					b.Close()
+				}
+				waitProbes(2 * time.Second)
+			}
+		}()
+		s.probe = func(tid int, kind string, holders []int) (bool, string) {
+			if ch := probing[tid]; ch != nil {
+				select {
+				case <-ch:
+				default:
+					return false, "" // the previous probe of this handle is still waiting for the lock
+				}
+			}
+			real := views[tid].real
+			res := make(chan error, 1)
+			fin := make(chan struct{})
+			go func() {
+				defer close(fin)
+				var err error
+				if kind == cLock {
+					if err = real.Lock(); err == nil {
+						real.Unlock()
+					}
+				} else {
+					if err = real.RLock(); err == nil {
+						real.RUnlock()
+					}
+				}
+				res <- err
+			}()
+			timer := time.NewTimer(blockWait)
+			defer timer.Stop()
+			select {
+			case err := <-res:
+				if err != nil {
+					return false, ""
+				}
+				var hs []string
+				across := false
+				for _, o := range holders {
+					hs = append(hs, fmt.Sprintf("t%d (%s)", o, run.Handles[o]))
+					across = across || run.Handles[o].Era != run.Handles[tid].Era
+				}
+				run.Across = run.Across || across
+				return true, fmt.Sprintf("the store lock of the key directory let t%d (%s) in with %s() while it was held through the handle(s) of %s, in the middle of operation %v: the lock does not exclude these handles from each other, their read-verify-apply-write cycles are not serialised",
+					tid, run.Handles[tid], kind, strings.Join(hs, ", "), opsOf(c, s, holders))
+			case <-timer.C:
+				probing[tid] = fin
+				for _, o := range holders {
+					if run.Handles[o].Era != run.Handles[tid].Era {
+						run.Across = true
+					}
+				}
+				return false, ""
+			}
+		}
+	}
 	world, err := newWorld(obs, obsRaw)
 	if err != nil {
 		run.Discard = "cannot list the initial state: " + err.Error()
 		return run
 	}
 	run.World = world
-	s := newSched(n, c.Schedule, watchdog)
 	s.stateIdx = func() int { return world.n }
 	s.onMutate = world.observe
-	run.Sched = s
-	views := make([]*view, n)
-	bodies := make([]func(*view), n)
-	run.Res = make([][]OpRes, n)
-	run.thrVs = make([]hx.Vs, n)
-	var fxs []kshist.Fixture
 	for i := range c.Threads {
-		raw, err := openRaw()
-		if err != nil {
-			run.Discard = "cannot open a thread's back end: " + err.Error()
-			return run
-		}
-		views[i] = &view{s: s, tid: i, real: raw}
-		vi := views[i]
-		fx, err := kshist.NewV2On(fmt.Sprintf("v2/%s/t%d", c.Backend, i), func() (backendapi.Backend, error) { return vi, nil })
-		if err != nil {
-			run.Discard = "cannot open a thread's handle: " + err.Error()
-			return run
-		}
-		fxs = append(fxs, fx)
-		run.Res[i] = make([]OpRes, len(c.Threads[i].Ops))
 		i := i
 		bodies[i] = func(v *view) {
 			for j, op := range c.Threads[i].Ops {
+				if s.thr[i].abandoned.Load() {
+					return
+				}
 				s.thr[i].op = j
 				start := world.n
 				var res OpRes
-				if hx.Guard(&run.thrVs[i], op.Kind+"/v2", func() { res = execOp(fx, v, op, j, exports) }) {
+				if op.Kind == kshist.OpReopen {
+					res = OpRes{Ran: true}
+					if err := reopen(i); err != nil {
+						res.Err = err.Error()
+					}
+				} else if hx.Guard(&run.thrVs[i], op.Kind+"/v2", func() { res = execOp(fxs[i], v, op, j, exports) }) {
 					res = OpRes{Ran: true, Err: "panic"}
 				}
 				res.Start, res.End = start, world.n
@@ -566,10 +830,14 @@ func Execute(c Case) *Run {
 				}
 			}
 		}
+		run.Res[i] = make([]OpRes, len(c.Threads[i].Ops))
 	}
 	s.Run(views, bodies)
 	for _, fx := range fxs {
 		fx.Close()
+	}
+	if s.Outcome == "" && s.LocksFree() {
+		waitProbes(2 * time.Second) // every probe that was kept out gets the lock now and lets go of it at once
 	}
 	if s.Outcome == "stuck" {
 		run.Discard = "watchdog: " + s.Detail
@@ -627,6 +895,9 @@ func (r *Run) threadSeq() string {
 func (r *Run) describe() string {
 	var sb strings.Builder
 	fmt.Fprintf(&sb, "back end %s; setup %v;", r.Case.Backend, r.Case.Setup)
+	if len(r.Case.Life) > 0 {
+		fmt.Fprintf(&sb, " handle lifetimes before the run %v;", r.Case.Life)
+	}
 	for i, s := range r.Case.Threads {
 		fmt.Fprintf(&sb, " t%d(%s):", i, s.Role)
 		for j, op := range s.Ops {
@@ -764,6 +1035,30 @@ func (r *Run) classify() {
 	if r.Inter {
 		add("interleaved-same-ring")
 	}
+	// handle lifetimes
+	if r.Visits > 0 {
+		add("life:short-lived-handle")
+	}
+	for i, h := range r.Handles {
+		if h.Gen == 0 && h.Era > 0 {
+			add("life:opened-after-a-close")
+		}
+		for _, o := range r.Handles[:i] {
+			if o.Era != h.Era {
+				add("life:handles-from-before-and-after-a-close")
+			}
+		}
+	}
+	for _, ct := range r.Sched.Contentions {
+		if ct.Acquired {
+			add("real-lock:let-waiter-in")
+		} else {
+			add("real-lock:kept-waiter-out:" + ct.Kind)
+		}
+	}
+	if r.Across {
+		add("real-lock:contended-across-a-close")
+	}
 	for k := range cl {
 		r.Classes = append(r.Classes, k)
 	}
@@ -816,7 +1111,9 @@ func hexOf(b []byte) string { return hex.EncodeToString(b) }
 //     is the one set by the last successful set-current in commit order;
 //  4. every read returned what some state between its invocation and its response implies, or a
 //     not-found error where that state has no such key; no other error;
-//  5. no deadlock (proved by the modelled lock), no lock leaked, lock discipline kept, no panic.
+//  5. no deadlock (proved by the modelled lock), no lock leaked, lock discipline kept, no panic;
+//  6. directory back end: the real store lock keeps a handle out while the lock is held through
+//     other handles, whenever the handles were opened and whatever was closed in between (probes).
 func Judge(r *Run) hx.Vs {
 	var vs hx.Vs
 	c := r.Case
@@ -845,7 +1142,7 @@ func Judge(r *Run) hx.Vs {
 		return vs
 	}
 	if !s.LocksFree() {
-		vs.Add("lock-leaked"+be, "all threads finished but the store lock is still held (exclusive holder t%d, shared holds %v)%s", s.lockW, s.lockR, ctx())
+		vs.Add("lock-leaked"+be, "all threads finished but the store lock is still held (exclusive holder t%d, shared holds %v)%s", s.wHolder(), s.lockR, ctx())
 	}
 	tainted := map[string]bool{}
 	// 1 + 2: commits per operation
@@ -1068,6 +1365,13 @@ func Judge(r *Run) hx.Vs {
 				for _, cm := range eff {
 					illegal(cm)
 				}
+			case kshist.OpReopen:
+				for _, cm := range eff {
+					illegal(cm)
+				}
+				if !ok {
+					vs.Add("reopen-error"+be, "t%d could not replace its key store handle: %s%s", i, res.Err, ctx())
+				}
 			default: // reads
 				for _, cm := range eff {
 					tainted[cm.Ring] = true
@@ -1163,7 +1467,7 @@ func Judge(r *Run) hx.Vs {
 	for i, th := range c.Threads {
 		for j, op := range th.Ops {
 			res := r.Res[i][j]
-			if !res.Ran || mutating(op.Kind) || op.Kind == opClaim {
+			if !res.Ran || mutating(op.Kind) || op.Kind == opClaim || op.Kind == kshist.OpReopen {
 				continue
 			}
 			if res.Err != "" && !res.NotFound {
@@ -1246,6 +1550,18 @@ func Judge(r *Run) hx.Vs {
 			}
 		}
 	}
+	// a real lock that does not exclude two handles is reported first; what it led to in this run
+	// (judged above, because the model stopped excluding the pair as well) is named there too
+	var after []string
+	for k := len(vs) - 1; k >= 0; k-- {
+		if strings.HasPrefix(vs[k].Sig, "store-lock-not-exclusive:") {
+			if len(after) > 0 {
+				vs[k].Msg += " || what it led to in this run: " + strings.Join(after, ", ")
+			}
+			continue
+		}
+		after = append([]string{vs[k].Sig}, after...)
+	}
 	return vs
 }
 
@@ -1260,7 +1576,7 @@ func Check(c Case) (hx.Vs, *Run) {
 
 // ---- tests --------------------------------------------------------------------------------------
 
-const schedRule = "2-3 writer scripts (1-3 operations from generate/rotate, generate at key-ring level with retries, destroy current, destroy rotated by index, import, import with overwrite, read current, read all, list, back-end claim via RenameNX) and 0-2 reader scripts over 6 key kinds x 2 ids, ~2/3 of the operations on one focus ring (new in a third of the cases), separate key store handles on one back end (in-memory 88 %, directory with one DirectoryBackend/lock descriptor per handle 12 %); schedule = run-length encoded list of thread choices at back-end-call granularity, drawn from rapid (consecutive segments name different threads; a segment whose thread waits for the store lock stays pending until it can run); modelled store lock. Non-trivial = two writers' back-end calls interleave on the same ring."
+const schedRule = "2-3 writer scripts (1-3 operations from generate/rotate, generate at key-ring level with retries, destroy current, destroy rotated by index, import, import with overwrite, read current, read all, list, back-end claim via RenameNX) and 0-2 reader scripts over 6 key kinds x 2 ids, ~2/3 of the operations on one focus ring (new in a third of the cases), separate key store handles on one back end (in-memory 88 %, directory with one DirectoryBackend/lock descriptor per handle 12 %); handle lifetimes: with weight 40 (observed: a fifth of the cases) the threads' handles are opened in a drawn order with 1-2 short-lived handles (open, one operation, close) in between, with weight 12 per thread (observed: in a fifth of the cases) a thread replaces its handle once during the run (reopen); on the directory back end a thread that waits for the modelled lock held through other handles probes the real lock of its own handle (returning while the holders have not unlocked = store-lock-not-exclusive; not returning within 25 ms = kept out); schedule = run-length encoded list of thread choices at back-end-call granularity, drawn from rapid (consecutive segments name different threads; a segment whose thread waits for the store lock stays pending until it can run); modelled store lock. Non-trivial = two writers' back-end calls interleave on the same ring."
 
 func TestSchedules(t *testing.T) {
 	R.Rule("TestSchedules", schedRule)
@@ -1276,6 +1592,29 @@ func TestSchedules(t *testing.T) {
 		}
 		R.Seen("TestSchedules", c, run.Inter, run.Classes...)
 		report(rt, "TestSchedules", c, vs)
+	})
+}
+
+// lifeOpt: the directory back end only (every handle has its own lock file descriptor, the real
+// store lock is probed), handles with a history in most cases.
+var lifeOpt = genOpt{dir: 100, life: 75, reopen: 30}
+
+const lifeRule = "the cases of TestSchedules on the directory back end only, with handle lifetimes in front: with weight 75 (observed: a third of the cases) the threads' handles are opened in a drawn order with 1-2 short-lived handles (open, one operation from generate / destroy current / read current / read all / list, close) in between, and with weight 30 per thread (observed: in a third of the cases) a thread replaces its handle once during the run (operation reopen, before, between or after its other operations; weights 40 / 12 in TestSchedules, on both back ends). The modelled store lock decides who may proceed; whenever a thread waits at Lock/RLock because the lock is held through OTHER handles, the harness calls the same method on the real back end of the waiter's handle (on a helper goroutine that releases at once): returning while the holders have not unlocked = the real lock (flock per lock file descriptor + mutex) does not exclude these handles: violation store-lock-not-exclusive, and from then on the model lets the pair run as the real lock does so that the consequences (lost update, duplicate sequence number) are judged as well; not returning within 25 ms = kept out (the clock decides only in that direction). Non-trivial = the real lock was contended between a handle opened before and a handle opened after some other handle on the directory was closed."
+
+func TestLifetimes(t *testing.T) {
+	R.Rule("TestLifetimes", lifeRule)
+	hx.Checks(12, 600)
+	flag.Set("rapid.shrinktime", "2s")
+	rapid.Check(t, func(rt *rapid.T) {
+		c := genCaseOpt(rt, lifeOpt)
+		vs, run := Check(c)
+		if run.Discard != "" {
+			R.Seen("TestLifetimes", c, false, "inconclusive")
+			R.Note("TestLifetimes: inconclusive run (%s)", run.Discard)
+			return
+		}
+		R.Seen("TestLifetimes", c, run.Across, run.Classes...)
+		report(rt, "TestLifetimes", c, vs)
 	})
 }
 
@@ -1295,6 +1634,7 @@ func TestReplay(t *testing.T) {
 	R.Replay(t, map[string]hx.ReplayHandler{
 		"TestSchedules": replayCase,
 		"TestEnumerate": replayCase,
+		"TestLifetimes": replayCase,
 		"TestV1Race":    replayRace,
 	})
 }
